@@ -2,7 +2,7 @@
 # usage: confirm_seed.sh <ID> [2]  -- re-confirm both seeded changes of /tmp/seed_<ID> (round 2: /tmp/seed2_<ID>,
 # stored as <ID>-c / <ID>-d) and copy them to /verif/seeded
 id=$1; round=${2:-1}
-if [ "$round" = "2" ]; then wt=/tmp/seed2_$id; elif [ "$round" = "3" ]; then wt=/tmp/seed3_$id; elif [ "$round" = "4" ]; then wt=/tmp/seed4_$id; else wt=/tmp/seed_$id; fi
+if [ "$round" = "2" ]; then wt=/tmp/seed2_$id; elif [ "$round" = "3" ]; then wt=/tmp/seed3_$id; elif [ "$round" = "4" ]; then wt=/tmp/seed4_$id; elif [ "$round" = "5" ]; then wt=/tmp/seed5_$id; else wt=/tmp/seed_$id; fi
 cd $wt || exit 1
 export CARGO_NET_OFFLINE=true
 git checkout -- . 2>/dev/null
@@ -23,6 +23,7 @@ for x in a b; do
   y=$x; if [ "$round" = "2" ]; then if [ $x = a ]; then y=c; else y=d; fi; fi
   if [ "$round" = "3" ]; then if [ $x = a ]; then y=e; else y=f; fi; fi
   if [ "$round" = "4" ]; then if [ $x = a ]; then y=g; else y=h; fi; fi
+  if [ "$round" = "5" ]; then if [ $x = a ]; then y=i; else y=j; fi; fi
   d=/verif/seeded/$id-$y; mkdir -p $d
   cp _seed/patch_$x.diff $d/patch.diff; cp _seed/seed_demo_$x.rs $d/seed_demo.rs
   python3 - "$id" "$x" "$res" "$wt" "$y" <<'PY'
